@@ -52,11 +52,12 @@ def settle_unknown(obl, r, task, solve):
     """An obligation that is recorded as discharged on the unchanged tree (baseline_obligations.json, committed, never
     written at check time) and is now undecided is retried with four times the budget; if it still cannot be discharged
     it is a *regressed obligation*: reported as a violation without a failing input."""
-    if r.status != "unknown" or task.get("record"):
+    if r.status != "unknown":
         return r
-    if norm_name(obl.name) not in baseline_set(task["prop"]):
-        return r
+    # every undecided obligation gets one retry with four times the budget (a loaded machine must not flip a verdict)
     r2 = solve.discharge(obl, timeout_ms=4 * task["timeout_ms"])
+    if task.get("record") or norm_name(obl.name) not in baseline_set(task["prop"]):
+        return r2
     if r2.status == "unknown":
         r2.status = "regressed"
         r2.reason = f"discharged on the unchanged tree, now undecided after a {4 * task['timeout_ms']} ms retry: {r2.reason}"
